@@ -309,6 +309,65 @@ def receiver_scenario(W, nthreads, stream_builder, line_points, seg_rng, api="re
     return scen
 
 
+def ponger_scenario(W, line_points):
+    """one thread receives (and so answers the server's pings), another sends unsolicited pongs of its own (a one-way heartbeat)"""
+    def scen():
+        S = sched.CURRENT
+        pings = [b"ping-one", b"p2", b"ping-number-three"]
+        stream = b"".join(R.encode(R.PING, p) + R.encode(R.TEXT, b"m%d" % i) for i, p in enumerate(pings))
+        w, conn, peer = H.connected_ws(after=stream)
+        req_len = len(conn.sent)
+        errors, got = [], []
+
+        def reader():
+            for _ in pings:
+                try:
+                    got.append(w.recv())
+                except BaseException as e:  # noqa
+                    if isinstance(e, sched.SimAbort):
+                        raise
+                    errors.append(("reader", e))
+                    return
+
+        def ponger():
+            for i in range(3):
+                try:
+                    w.pong(b"heartbeat-%d-from-the-application" % i)
+                except BaseException as e:  # noqa
+                    if isinstance(e, sched.SimAbort):
+                        raise
+                    errors.append(("ponger", e))
+                    return
+        actors = [S.spawn(reader, name="R0"), S.spawn(ponger, name="P0")]
+        S.arm(line_points=line_points)
+        S.block(lambda: all(a.state == sched.DONE for a in actors), None, why="join")
+        S.disarm()
+        return {"conn": conn, "req_len": req_len, "errors": errors, "got": got, "actors": actors, "pings": pings}
+    return scen
+
+
+def judge_ponger(res, obs, S, tag):
+    issues = []
+    for who, e in obs["errors"]:
+        issues.append(("thread-exception", f"{who}: {type(e).__name__}: {e}", {"exc_type": type(e).__name__}))
+    conn = obs["conn"]
+    stream = bytes(conn.sent[obs["req_len"]:])
+    frames, pos = R.decode_all(stream)
+    if pos != len(stream):
+        issues.append(("wire-garbage", f"accepted stream has {len(stream) - pos} trailing bytes that are not a whole frame", {}))
+    bad = [f for f in frames if f.opcode != R.PONG or not f.masked or f.rsv]
+    if bad:
+        issues.append(("wire-garbage", f"frames other than well-formed pongs on the wire: {[(f.opcode, f.rsv, f.payload[:10]) for f in bad][:3]}", {}))
+    auto = [f.payload for f in frames if f.opcode == R.PONG and not f.payload.startswith(b"heartbeat-")]
+    own = [f.payload for f in frames if f.opcode == R.PONG and f.payload.startswith(b"heartbeat-")]
+    if auto != obs["pings"]:
+        issues.append(("pongs-damaged", f"pings {obs['pings']!r} answered by {auto!r}", {}))
+    if own != [b"heartbeat-%d-from-the-application" % i for i in range(3)]:
+        issues.append(("pongs-damaged", f"the application's own pongs arrived as {own!r}", {}))
+    case = {"scenario": tag, "decisions": list(S.decisions)[:400], "n_decisions": len(S.decisions)}
+    return issues, case, (len(frames),), True
+
+
 def build_recv_stream(rng):
     msgs = []
     pings = []
@@ -506,6 +565,10 @@ def run(res, tier, seed, shard, nshards):
     jobs.append(("RF", 3, "random-line", 100 if quick else 2500))
     jobs.append(("RF", 2, "dfs", 600 if quick else 20000))
     jobs.append(("R", 3, "sweep2-line", 300 if quick else 20000))
+    # a thread sending pongs of its own while the reader answers pings
+    jobs.append(("PG", "sweep-line", 100000))
+    jobs.append(("PG", "sweep2-line", 300 if quick else 20000))
+    jobs.append(("PG", "random-line", 150 if quick else 5000))
     # every single line of a short run as the one preemption point (messages of alternating kind)
     jobs.append(("RM", 2, "sweep-line", 100000))
     jobs.append(("RM", 3, "sweep2-line", 300 if quick else 20000))
@@ -532,6 +595,11 @@ def run(res, tier, seed, shard, nshards):
             tag = ("senders-slow-transport", nt, nf, piece, mode)
             explore(res, lambda: sender_scenario(W, nt, nf, piece, False, False, slow=(0.05, 0.2)),
                     lambda obs, S: _js(res, obs, S, nt, nf, tag, False), tag, mode, budget, seed * 1000 + ji, "sender_schedules")
+        elif job[0] == "PG":
+            _, mode, budget = job
+            tag = ("reader-and-ponger", mode)
+            explore(res, lambda: ponger_scenario(W, True), lambda obs, S: judge_ponger(res, obs, S, tag), tag, mode.replace("-line", ""), budget, seed * 1000 + ji,
+                    "sender_schedules")
         elif job[0] == "RM":
             _, nt, mode, budget = job
             tag = ("receivers-mixed-kinds", nt, mode)
